@@ -34,7 +34,7 @@ RULE = (
     "occupation, energies) evaluated on the shared state object before or after, in a tape-chosen order."
 )
 COMPONENTS = {"real": ["MPS.sample", "StateVector.sample", "DensityMatrix.sample", "emu_base.utils.apply_measurement_errors/readout_with_error", "index_to_bitstring", "backend variant: MPSBackend.run / SVBackend.run, BitStrings callback, fill_results / _apply_observables, permute_results"], "stubbed": ["torch / random RNG (seeded from the tape)", "backend variant: clock, uuid, minimize_bandwidth (scheduler-chosen order)"]}
-PROBES = ["mps_qubit", "mps_qutrit", "state_vector", "density_matrix", "readout_errors", "pfp_equals_1", "pfn_equals_1", "shots_not_multiple_of_32", "shots_ge_5000", "product_state_position", "zero_probability_strings_present", "single_shot", "backend_run_bitstrings", "backend_bitstrings_under_non_identity_order", "backend_bitstrings_after_other_observables", "backend_readout_errors_from_config", "backend_density_matrix_run"]
+PROBES = ["mps_qubit", "mps_qutrit", "state_vector", "density_matrix", "readout_errors", "pfp_equals_1", "pfn_equals_1", "shots_not_multiple_of_32", "shots_ge_5000", "product_state_position", "zero_probability_strings_present", "single_shot", "backend_run_bitstrings", "backend_bitstrings_under_non_identity_order", "backend_bitstrings_after_other_observables", "backend_readout_errors_from_config", "backend_density_matrix_run", "one_state_named_explicitly"]
 ASSUMPTIONS = [
     f"statistical acceptance: exact two-sided binomial test per output string against the Born model pushed through the independent bit-flip channel, per-comparison level {ALPHA_FAMILY}/{MAX_COMPARISONS:g}, i.e. family-wise false-alarm probability <= {ALPHA_FAMILY} per invocation for any VERIF_SEED",
     "qutrit MPS: the leakage level reads as 0; false positives are not implemented there (NotImplementedError is the documented behaviour) and are not generated",
@@ -241,6 +241,8 @@ def backend_case(tape: Tape) -> dict:
         noise.update(p_false_pos=pfp, p_false_neg=pfn)
     others = [k for k in ("correlation_matrix", "occupation", "energy", "energy_variance") if tape.bool(0.5, f"with_{k}")]
     obs = [{"kind": k, "times": times} for k in others] + [{"kind": "bitstrings", "times": times, "shots": shots}]
+    if tape.bool(0.3, "one_state_given"):
+        obs[-1]["one_state"] = "r"
     if be == "mps" and n >= 3 and tape.bool(0.4, "with_entropy"):
         # observables that move the orthogonality centre of the shared state object (and have to put it back)
         obs.append({"kind": "entanglement_entropy", "times": times, "site": tape.int(1, n - 2, "entropy_site")})
@@ -300,6 +302,8 @@ def backend_case(tape: Tape) -> dict:
             probes["backend_readout_errors_from_config"] = 1
         if be == "sv-lindblad":
             probes["backend_density_matrix_run"] = 1
+        if any(o.get("one_state") for o in obs):
+            probes["one_state_named_explicitly"] = 1
     finally:
         world.close()
     seen: set = set()
@@ -340,8 +344,15 @@ def one_case(tape: Tape) -> dict:
     desc = {"state": kind, "n": n, "d": S["d"], "shots": shots, "p_false_pos": pfp, "p_false_neg": pfn, "bits": S.get("bits")}
     V: list[dict] = []
     probes: dict[str, int] = {}
+    # the excited state may be named explicitly ("1 means the excited state" either way); states built on Pulser's
+    # eigenstate labels (r, g[, x]) accept "r"
+    kw_one: dict[str, Any] = {}
+    if tape.bool(0.3, "one_state_given"):
+        kw_one["one_state"] = "r"
+        desc["one_state"] = "r"
+        probes["one_state_named_explicitly"] = 1
     try:
-        counts = S["state"].sample(num_shots=shots, p_false_pos=pfp, p_false_neg=pfn)
+        counts = S["state"].sample(num_shots=shots, p_false_pos=pfp, p_false_neg=pfn, **kw_one)
     except Exception as e:
         import traceback
 
